@@ -70,6 +70,23 @@ CHECKS = {
              "(single moments) / 1e-14 (program results), TruncNormal 1e-9.",
         design="DESIGN.md section 4 C13",
     ),
+    "C06": dict(
+        technique="property-based testing: generated exponential-polynomial closed forms and programs, exact evaluation of every reported invariant on the goal sequences",
+        text="Generated-input search: InvariantIdeal on 2-4 generated closed forms (rational and algebraic bases built to hit the exponent-lattice code, polynomial "
+             "factors, Piecewise special cases) - every basis element is evaluated exactly on the goal values for 13 consecutive n past the special cases; and "
+             "end-to-end through GoalsAction with --invariants on generated programs, where the printed basis is evaluated on the reference interpreter's exact "
+             "moments / central moments / cumulants.",
+        note=TRUSTED + " Algebraic bases: exact sympy numbers with adaptive-precision confirmation (1e-40). <=4 goals; Groebner time limit => inconclusive.",
+        design="DESIGN.md section 4 C06",
+    ),
+    "C07": dict(
+        technique="property-based testing: generated closed forms, exact linear algebra on sequence values finds all relations up to degree D, ideal membership of each in the reported basis",
+        text="Generated-input search: for 2-4 generated closed forms with rational bases the space of polynomial relations of degree <= D (3, or 2 for four goals) is "
+             "computed independently by Gaussian elimination over Fractions on 3m sequence values and re-validated on 2m further values; every such relation must "
+             "reduce to 0 modulo the reported basis, and 'no invariants' requires the space to be zero. Together with C06 this decides both inclusions up to degree D.",
+        note="Trusted base: Hypothesis, own Fraction Gaussian elimination, sympy's Groebner normal form applied to Polar's output. Bounds: k<=4, D<=3, rational bases only.",
+        design="DESIGN.md section 4 C07",
+    ),
 }
 
 PENDING = {}
